@@ -5,6 +5,8 @@ pub mod kinds;
 #[cfg(kani)]
 mod c01;
 #[cfg(kani)]
+mod c02;
+#[cfg(kani)]
 mod c03;
 #[cfg(kani)]
 mod c04;
